@@ -93,8 +93,13 @@ def make(cfg):
                 run.impl_step()
                 out.append([H.read(p.to_local()) for p in run.params])
             results[r] = out
+            if hybrid:
+                from checks.c06 import state_summary
+
+                owners[r] = state_summary(run)
             return True
 
+        owners = [None] * world
         _, errors = sim.run(rank_fn)
         for e in errors:
             if isinstance(e, (symx.PathEnd, symx.Restart, symx.PathViolation, symx.HarnessError)):
@@ -102,6 +107,13 @@ def make(cfg):
         bad = [e for e in errors if e is not None]
         if bad:
             symx.prove(f"a rank failed: {type(bad[0]).__name__}: {str(bad[0])[:160]}", False, info)
+        if hybrid and not bad:
+            from checks.c06 import prove_state_placement
+
+            gsz = hybrid.get("group", -1)
+            gsz = replicas if gsz == -1 else gsz
+            groups_ = [[(q0 + q) * nshard + t for q in range(gsz)] for t in range(nshard) for q0 in range(0, replicas, gsz)]
+            prove_state_placement(groups_, owners, dict(cfg=cfg, signature=dict(kind="state-placement", hybrid=True)))
         for srank in range(nshard):
             idx = [i for i in range(len(origs)) if splits[i][srank][1] > splits[i][srank][0]]
             if not idx:
